@@ -10,7 +10,7 @@ its concurrent protocol is C01–C03's).
 Times: `StartSpanOptions`/`EndSpanOptions` carry plain timestamps where 0 means "not given" (`NowOr`); a clock reading is
 `none` here (the harness prints clock-dependent values as `now` / `auto`). -/
 namespace Otel.Span
-open Otel.Attr
+open Otel.SAttr
 
 abbrev KVs := List (Bytes × Value)
 
